@@ -121,7 +121,7 @@ def check(cx):
                 overl.append((a[3] or 'members', b[3] or 'members', b[0]))
     if overl:
         names = sorted({x for a, b, _ in overl for x in (a, b)})
-        r4.violation('process_privmsg_notice|overlapping-rank-fanouts', 'for a target with several status prefixes the fan-outs over %s '
+        r4.violation('process_privmsg_notice|overlapping-rank-fanouts|' + '/'.join(names), 'for a target with several status prefixes the fan-outs over %s '
                      'all run, and a member holding two of those ranks receives two copies' % '/'.join(names),
                      loc=cx.loc(overl[0][2].node), pairs=[(a, b) for a, b, _ in overl])
 
